@@ -986,8 +986,7 @@ func ruleStale(c *Ctx, id string) {
 				return false
 			}
 			for _, e := range elems {
-				mc, fl := fieldOfCallResult(e)
-				if mc == nil || fl != "Ino" || mc.Call.StaticCallee() == nil || mc.Call.StaticCallee().Name() != "MakeFh" {
+				if fhFieldOf(e) != "Ino" {
 					return false
 				}
 			}
@@ -1025,7 +1024,7 @@ func ruleStale(c *Ctx, id string) {
 				if nm != V.Inode || fl != "Gen" {
 					continue
 				}
-				if mc, f2 := fieldOfCallResult(pr[1]); mc != nil && f2 == "Gen" && mc.Call.StaticCallee() != nil && mc.Call.StaticCallee().Name() == "MakeFh" {
+				if fhFieldOf(pr[1]) == "Gen" {
 					return true, cd.Op == token.NEQ
 				}
 			}
@@ -1036,4 +1035,23 @@ func ruleStale(c *Ctx, id string) {
 	if n == 0 {
 		R.Fail(id, "nfs|STALE sites", "?", "the server answers NFS3ERR_STALE somewhere", "no use of the constant found")
 	}
+}
+
+// fhFieldOf: v is field F of a decoded client handle (a value of type fh.Fh:
+// the result of fh.MakeFh, or a parameter / local of that type); returns F.
+func fhFieldOf(v ssa.Value) string {
+	v = stripConv(v)
+	switch x := v.(type) {
+	case *ssa.Field:
+		if isNamed(x.X.Type(), "/fh", "Fh") {
+			return fieldNameOfValue(x)
+		}
+	case *ssa.UnOp:
+		if x.Op == token.MUL {
+			if fa, ok := x.X.(*ssa.FieldAddr); ok && isNamed(derefType(fa.X.Type()), "/fh", "Fh") {
+				return fieldNameAt(fa)
+			}
+		}
+	}
+	return ""
 }
